@@ -284,6 +284,72 @@ struct PendingTrace {
   pub exports_to_trace: ImportedExports,
 }
 
+/// Verification hook (see /verif): runs the crate-private `ImportedExports::add`
+/// on values given as plain data, for the native replay binary. Only compiled
+/// with `--cfg deno_graph_verif`.
+///
+/// A value is `(kind, entries)`: kind 0 = Star, 1 = StarWithDefault,
+/// 2 = Subset; an entry is an export name with `None` (the whole export) or
+/// the member names traced under it.
+#[cfg(deno_graph_verif)]
+pub type VerifImportedExports = (u8, Vec<(String, Option<Vec<String>>)>);
+
+#[cfg(deno_graph_verif)]
+pub fn verif_imported_exports_add(
+  current: VerifImportedExports,
+  incoming: VerifImportedExports,
+) -> (VerifImportedExports, Option<VerifImportedExports>) {
+  fn to_value(v: VerifImportedExports) -> ImportedExports {
+    match v.0 {
+      0 => ImportedExports::Star,
+      1 => ImportedExports::StarWithDefault,
+      _ => {
+        let mut subset = NamedSubset::default();
+        for (name, members) in v.1 {
+          match members {
+            None => subset.add(name),
+            Some(members) => {
+              let mut inner = NamedSubset::default();
+              for member in members {
+                inner.add(member);
+              }
+              subset.add_named(name, Exports::Subset(inner));
+            }
+          }
+        }
+        ImportedExports::Subset(subset)
+      }
+    }
+  }
+  fn from_value(v: &ImportedExports) -> VerifImportedExports {
+    match v {
+      ImportedExports::Star => (0, vec![]),
+      ImportedExports::StarWithDefault => (1, vec![]),
+      ImportedExports::Subset(subset) => (
+        2,
+        subset
+          .0
+          .iter()
+          .map(|(name, exports)| {
+            (
+              name.clone(),
+              match exports {
+                Exports::All => None,
+                Exports::Subset(inner) => {
+                  Some(inner.0.keys().cloned().collect())
+                }
+              },
+            )
+          })
+          .collect(),
+      ),
+    }
+  }
+  let mut current = to_value(current);
+  let delta = current.add(to_value(incoming));
+  (from_value(&current), delta.as_ref().map(from_value))
+}
+
 pub fn find_public_ranges<'a>(
   fast_check_cache: Option<&'a dyn FastCheckCache>,
   jsr_url_provider: &'a dyn JsrUrlProvider,
